@@ -1,6 +1,6 @@
 use crate::ast::{Builtin, CharOrRange, Regex, Var};
 use crate::builtin::{BuiltinCharRange, BUILTIN_RANGES};
-use crate::collections::Map;
+use crate::collections::{Map, Set};
 use crate::nfa::{StateIdx, NFA};
 use crate::range_map::{Range, RangeMap};
 
@@ -58,10 +58,14 @@ pub fn add_re<A>(
         }
 
         Regex::CharSet(set) => {
+            // A character can be listed more than once, add its transition once
+            let mut chars: Set<char> = Default::default();
             for char in &set.0 {
                 match char {
                     CharOrRange::Char(char) => {
-                        nfa.add_char_transition(current, *char, cont);
+                        if chars.insert(*char) {
+                            nfa.add_char_transition(current, *char, cont);
+                        }
                     }
                     CharOrRange::Range(range_start, range_end) => {
                         nfa.add_range_transition(current, *range_start, *range_end, cont);
